@@ -515,6 +515,21 @@ struct channel_multiplier_unsigned {
     using result_type = ChannelValue;
     auto operator()(ChannelValue a, ChannelValue b) const -> ChannelValue
     {
+        return apply(a, b, detail::is_channel_integral<ChannelValue>());
+    }
+
+private:
+    // integral channels: exact scaled product (a/max*b in floating point is neither exact nor commutative)
+    static auto apply(ChannelValue a, ChannelValue b, std::true_type) -> ChannelValue
+    {
+        using base_t = typename base_channel_type<ChannelValue>::type;
+        uintmax_t const max_value = static_cast<base_t>(channel_traits<ChannelValue>::max_value());
+        return ChannelValue(static_cast<base_t>(
+            static_cast<uintmax_t>(static_cast<base_t>(a)) * static_cast<uintmax_t>(static_cast<base_t>(b)) / max_value));
+    }
+
+    static auto apply(ChannelValue a, ChannelValue b, std::false_type) -> ChannelValue
+    {
         return ChannelValue(static_cast<typename base_channel_type<ChannelValue>::type>(a / double(channel_traits<ChannelValue>::max_value()) * b));
     }
 };
